@@ -625,7 +625,9 @@ class TransactionResult:
 
                 int_table.insert(packed)
 
-        return Result(env_table, lrn_table, val_table, int_table, exp_dict)
+        result = Result(env_table, lrn_table, val_table, int_table, exp_dict)
+        result.finished = set(int_rows) #every recorded evaluation, also those that produced no rows
+        return result
 
 @dataclass
 class Points:
@@ -969,6 +971,7 @@ class Result:
         int_rows = int_rows if int_rows is not None else Table(columns=['environment_id','learner_id','evaluator_id','index'])
 
         self.experiment = args[4] if len(args) == 5 else {}
+        self.finished   = set()
 
         self._environments = env_rows if isinstance(env_rows,Table) else Table(columns=env_rows[0]).insert(env_rows[1:])
         self._learners     = lrn_rows if isinstance(lrn_rows,Table) else Table(columns=lrn_rows[0]).insert(lrn_rows[1:])
